@@ -10,8 +10,11 @@ import (
 // Instances returns n instances (model form) for the schema document: a mix of
 // schema-directed candidates (built to sit on the boundaries the keywords draw),
 // perturbations of those, and free values from the shared pools.
-func Instances(r *rand.Rand, root any, n int, smallNumbers bool) []any {
-	ig := &igen{r: r, root: root, small: smallNumbers || hasKey(root, "multipleOf")}
+func Instances(r *rand.Rand, root any, n int, smallNumbers bool, names ...string) []any {
+	ig := &igen{r: r, root: root, small: smallNumbers || hasKey(root, "multipleOf"), names: names}
+	if len(names) == 0 {
+		ig.names = Names
+	}
 	out := make([]any, 0, n)
 	for len(out) < n {
 		var v any
@@ -23,12 +26,18 @@ func Instances(r *rand.Rand, root any, n int, smallNumbers bool) []any {
 		default:
 			v = ig.free(0)
 		}
+		if ig.small {
+			// multipleOf present: keep every number (also those copied from enum/const) small enough
+			// that the documented float quotient decides integrality exactly
+			v = ig.shrinkNumbers(Clone(v))
+		}
 		out = append(out, v)
 	}
 	return out
 }
 
 type igen struct {
+	names []string
 	r     *rand.Rand
 	root  any
 	small bool // keep numbers small (multipleOf present: float quotient must stay exact)
@@ -113,7 +122,7 @@ func (g *igen) perturb(v any) any {
 		case len(ks) > 0 && r.IntN(3) == 0:
 			delete(x, Pick(r, ks))
 		case r.IntN(3) == 0:
-			x[Pick(r, Names)] = g.free(2)
+			x[Pick(r, g.names)] = g.free(2)
 		case len(ks) > 0:
 			k := Pick(r, ks)
 			x[k] = g.perturb(x[k])
@@ -126,6 +135,9 @@ func (g *igen) perturb(v any) any {
 		}
 		d := Pick(r, []*big.Rat{big.NewRat(1, 1), big.NewRat(-1, 1), big.NewRat(1, 64), big.NewRat(-1, 64), big.NewRat(1, 2)})
 		rt.Add(rt, d)
+		if _, exact := rt.Float64(); !exact {
+			return x // stay inside the float64-exact domain
+		}
 		return ratNumber(rt)
 	case string:
 		switch r.IntN(3) {
@@ -320,6 +332,9 @@ func (g *igen) directedNumber(m map[string]any) any {
 	if g.small && (c.Cmp(big.NewRat(1<<32, 1)) > 0 || c.Cmp(big.NewRat(-(1<<32), 1)) < 0) {
 		return g.number()
 	}
+	if _, exact := c.Float64(); !exact {
+		return g.number() // stay inside the float64-exact domain
+	}
 	return ratNumber(c)
 }
 
@@ -356,6 +371,13 @@ func (g *igen) directedArray(m map[string]any, depth int) any {
 	prefix, _ := m["prefixItems"].([]any)
 	if prefix == nil {
 		prefix, _ = m["items"].([]any)
+	}
+	if r.IntN(3) == 0 { // a prefix that an in-place applicator (cousin) talks about
+		var cands [][]any
+		g.deepPrefixes(m, &cands, 0)
+		if len(cands) > 0 {
+			prefix = Pick(r, cands)
+		}
 	}
 	if prefix != nil && r.IntN(2) == 0 {
 		n = len(prefix) + r.IntN(3) - 1
@@ -408,6 +430,18 @@ func (g *igen) directedObject(m map[string]any, depth int) any {
 			out[k] = g.directed(props[k], depth+1)
 		}
 	}
+	// names that in-place applicators (cousins) talk about
+	deep := map[string]any{}
+	g.deepProps(m, deep, 0)
+	for _, k := range sortedKeysAny(deep) {
+		if _, present := out[k]; !present && r.IntN(10) < 5 {
+			if r.IntN(3) == 0 {
+				out[k] = g.free(depth + 2)
+			} else {
+				out[k] = g.directed(deep[k], depth+1)
+			}
+		}
+	}
 	if req, ok := m["required"].([]any); ok {
 		for _, q := range req {
 			if name, ok := q.(string); ok && r.IntN(10) < 8 {
@@ -445,7 +479,7 @@ func (g *igen) directedObject(m map[string]any, depth int) any {
 	}
 	// extra names (may or may not match patternProperties / additionalProperties / unevaluatedProperties)
 	for i := r.IntN(3); i > 0; i-- {
-		name := Pick(r, Names)
+		name := Pick(r, g.names)
 		if _, present := out[name]; present {
 			continue
 		}
@@ -471,9 +505,94 @@ func (g *igen) directedObject(m map[string]any, depth int) any {
 				ks = ks[:len(ks)-1]
 			}
 			for len(out) < b && len(out) < 6 {
-				out[Pick(r, Names)] = g.free(depth + 2)
+				out[Pick(r, g.names)] = g.free(depth + 2)
 			}
 		}
 	}
 	return out
+}
+
+// inPlaceSubs lists the subschemas applied in place to the same instance location.
+func (g *igen) inPlaceSubs(m map[string]any) []any {
+	var out []any
+	for _, k := range []string{"allOf", "anyOf", "oneOf"} {
+		if a, ok := m[k].([]any); ok {
+			out = append(out, a...)
+		}
+	}
+	for _, k := range []string{"if", "then", "else", "not"} {
+		if sub, ok := m[k]; ok {
+			out = append(out, sub)
+		}
+	}
+	for _, k := range []string{"dependentSchemas", "dependencies"} {
+		if dm := asObj(m[k]); dm != nil {
+			for _, dk := range sortedKeysAny(dm) {
+				if asObj(dm[dk]) != nil {
+					out = append(out, dm[dk])
+				}
+			}
+		}
+	}
+	if ref, ok := m["$ref"].(string); ok {
+		if t := g.resolveRef(ref); t != nil {
+			out = append(out, t)
+		}
+	}
+	return out
+}
+
+func (g *igen) deepProps(m map[string]any, acc map[string]any, depth int) {
+	if depth > 3 {
+		return
+	}
+	for _, sub := range g.inPlaceSubs(m) {
+		sm := asObj(sub)
+		if sm == nil {
+			continue
+		}
+		if props := asObj(sm["properties"]); props != nil {
+			for k, v := range props {
+				if _, ok := acc[k]; !ok {
+					acc[k] = v
+				}
+			}
+		}
+		if dm := asObj(sm["dependentSchemas"]); dm != nil {
+			for k := range dm {
+				if _, ok := acc[k]; !ok {
+					acc[k] = true
+				}
+			}
+		}
+		if req, ok := sm["required"].([]any); ok {
+			for _, q := range req {
+				if name, ok := q.(string); ok {
+					if _, ok := acc[name]; !ok {
+						acc[name] = true
+					}
+				}
+			}
+		}
+		g.deepProps(sm, acc, depth+1)
+	}
+}
+
+func (g *igen) deepPrefixes(m map[string]any, acc *[][]any, depth int) {
+	if depth > 3 {
+		return
+	}
+	for _, sub := range g.inPlaceSubs(m) {
+		sm := asObj(sub)
+		if sm == nil {
+			continue
+		}
+		if p, ok := sm["prefixItems"].([]any); ok {
+			*acc = append(*acc, p)
+		}
+		if p, ok := sm["items"].([]any); ok {
+			*acc = append(*acc, p)
+		}
+		g.deepPrefixes(sm, acc, depth+1)
+	}
 }
